@@ -26,8 +26,9 @@ tokenizer only ever inspect ASCII code points, so nothing depends on the UTF-8 b
 * `nodeHtml`/`kidsHtml`/`toHtml` — `HtmlElement::to_html_with_buf`, tuple children (view/tuples.rs),
                    `RenderHtml::to_html` (view/mod.rs) with `Position::FirstChild`.
 * `headHtml`     — `ServerMetaContextOutput::inject_meta_context` (meta/src/lib.rs) restricted to the
-                   text it inserts into `<head>`: `<title>` + title **raw** + `</title>`, the
-                   `<!--HEAD-->` marker, then the registered `<meta>` tags.
+                   text it inserts into `<head>`: `<title>` + `encode_text(title)` + `</title>`, the
+                   `<!--HEAD-->` marker, then the registered `<meta>` tags.  `headHtmlOld`: the code
+                   before the repair of F-C06-2 (title pushed raw), kept for the regression witness.
 
 ## Part 3 — `parse`: a subset of the WHATWG tokenizer + "in body" tree builder (scripting enabled)
 One character is consumed per `step`; `run` is structurally recursive on the input, so closed
@@ -209,8 +210,15 @@ def toHtml (v : List Node) : Str := kidsHtml true .firstChild v
 
 def sHeadMarker : Str := ['<','!','-','-','H','E','A','D','-','-','>']
 
-/-- text inserted into `<head>` by `inject_meta_context`: title raw, marker, registered tags -/
+/-- text inserted into `<head>` by `inject_meta_context`: the title escaped with `encode_text` (since
+`fix: escape the document title …`), the marker, the registered tags -/
 def headHtml (title : Option Str) (metas : List Node) : Str :=
+  (match title with
+   | some t => '<' :: tTitle ++ '>' :: escapeText t ++ '<' :: '/' :: tTitle ++ ['>']
+   | none => []) ++ sHeadMarker ++ kidsHtml false .nextChild metas
+
+/-- `inject_meta_context` before the repair of F-C06-2: the title was pushed as it is -/
+def headHtmlOld (title : Option Str) (metas : List Node) : Str :=
   (match title with
    | some t => '<' :: tTitle ++ '>' :: t ++ '<' :: '/' :: tTitle ++ ['>']
    | none => []) ++ sHeadMarker ++ kidsHtml false .nextChild metas
